@@ -26,6 +26,60 @@ Definition span_ok (r : span_in) : Prop :=
   end_ok (si_end r) /\ svlen_ok (si_svlen r) /\
   match si_len r with Some l => Forall len_ok l | None => True end.
 
+(* neither method panics, whatever the record; an end before the start is an error *)
+Lemma max_lens_no_panic : forall l acc, max_lens l acc <> Panic.
+Proof.
+  induction l as [|[z|] l IH]; intro acc; cbn [max_lens]; [discriminate| |apply IH].
+  destruct (z <? 0)%Z; [discriminate|apply IH].
+Qed.
+
+Lemma max_sample_lens_no_panic : forall l acc, max_sample_lens l acc <> Panic.
+Proof.
+  induction l as [|[v|] l IH]; intro acc; cbn [max_sample_lens]; [discriminate| |apply IH].
+  destruct v; try discriminate. destruct (z <? 0)%Z; [discriminate|apply IH].
+Qed.
+
+Lemma variant_end_no_panic : forall v45 r, variant_end v45 r <> Panic.
+Proof.
+  intros v45 r. unfold variant_end, ref_len, end_from_len, info_max_svlen, samples_max_len, info_end.
+  destruct v45.
+  - destruct (si_reflen r =? 0); [discriminate|].
+    destruct (si_svlen r) as [[v|]|].
+    + destruct v; try discriminate.
+      pose proof (max_lens_no_panic l None) as Hm. destruct (max_lens l None) as [sv|e|]; [|discriminate|contradiction].
+      destruct (si_len r) as [ls|].
+      * pose proof (max_sample_lens_no_panic ls None) as Hs.
+        destruct (max_sample_lens ls None) as [sl|e|]; [|discriminate|contradiction].
+        destruct (usize_max <? _); discriminate.
+      * destruct (usize_max <? _); discriminate.
+    + destruct (si_len r) as [ls|].
+      * pose proof (max_sample_lens_no_panic ls None) as Hs.
+        destruct (max_sample_lens ls None) as [sl|e|]; [|discriminate|contradiction].
+        destruct (usize_max <? _); discriminate.
+      * destruct (usize_max <? _); discriminate.
+    + destruct (si_len r) as [ls|].
+      * pose proof (max_sample_lens_no_panic ls None) as Hs.
+        destruct (max_sample_lens ls None) as [sl|e|]; [|discriminate|contradiction].
+        destruct (usize_max <? _); discriminate.
+      * destruct (usize_max <? _); discriminate.
+  - destruct (si_end r) as [[v|]|].
+    + destruct v; try discriminate. destruct (1 <=? z)%Z; discriminate.
+    + destruct (si_reflen r =? 0); [discriminate|]. destruct (usize_max <? _); discriminate.
+    + destruct (si_reflen r =? 0); [discriminate|]. destruct (usize_max <? _); discriminate.
+Qed.
+
+Theorem variant_span_no_panic : forall v45 r,
+  variant_end v45 r <> Panic /\ variant_span v45 r <> Panic /\
+  (forall e, variant_end v45 r = Ok e -> e < start_of r -> variant_span v45 r = Err InvalidData).
+Proof.
+  intros v45 r. split; [apply variant_end_no_panic|]. unfold variant_span.
+  pose proof (variant_end_no_panic v45 r) as H.
+  destruct (variant_end v45 r) as [e|x|]; [|split; [discriminate|intros; discriminate]|contradiction].
+  split.
+  - destruct (e <? start_of r); discriminate.
+  - intros e' He Hlt. inversion He; subst e'. destruct (e <? start_of r) eqn:E; [reflexivity|lia].
+Qed.
+
 Section F.
 Variable fmt_float : N -> list N.
 Variable prs_float : list N -> option N.
